@@ -124,6 +124,10 @@ pub fn parse<S: AsRef<str> + Clone + fmt::Display>(
     };
 
     let range = move |span: &[u8]| {
+        let (base, start) = (input.as_ptr() as usize, span.as_ptr() as usize);
+        if start < base || start > base + input.len() {
+            return 0..0; // span does not point into the input
+        }
         let offset = input.offset(span);
         let end = offset + span.len();
         if end >= input.len() {
